@@ -148,6 +148,9 @@ class Inliner:
             self.inlined(f)
         return self.count
 
+    def prepare(self, callee):
+        return self.inlined(callee)
+
     def candidates(self, f):
         out = []
         for i in range(1, len(f.nodes) + 1):
@@ -177,8 +180,8 @@ class Inliner:
                 if not cands:
                     break
                 i, callee, kind = cands[0]
-                self.inlined(callee)
-                if not self.splice(f, i, callee, kind):
+                g2 = self.prepare(callee)
+                if not self.splice(f, i, g2, kind):
                     f.nodes[i - 1]['no_inline'] = True
         finally:
             self.stack.pop()
@@ -375,3 +378,71 @@ def _simple_object(t):
 
 def inline_unit(unit):
     return Inliner(unit).run()
+
+
+class Flattener(Inliner):
+    """flat(fn): a private copy of fn in which every direct call of a local closure (known or not) and of an out-of-vocabulary
+    helper is inlined, recursively.  For rules that state a fact about the function as a whole (what happens between two
+    calls, in which order) and must not depend on how its body is cut into closures.  The unit is left untouched."""
+
+    def __init__(self, unit):
+        super().__init__(unit)
+        self.copies = {}
+
+    def _copy(self, fn):
+        from ir import Fn
+        nf = Fn(fn.unit, dict(fn.d))
+        nf.nodes = [dict(n) for n in fn.nodes]
+        nf.cfg = copy.deepcopy(fn.cfg)
+        nf._inline_private = True
+        nf.inlined_from = list(getattr(fn, 'inlined_from', []) or [])
+        nf.inline_lossy = list(getattr(fn, 'inline_lossy', []) or [])
+        if getattr(fn, 'inlined_nontrivial', None):
+            nf.inlined_nontrivial = list(fn.inlined_nontrivial)
+        nf.flat_of = fn
+        return nf
+
+    def candidates(self, f):
+        out = []
+        for i in range(1, len(f.nodes) + 1):
+            nd = f.nodes[i - 1]
+            if nd['c'] in ('CallExpr', 'CXXMemberCallExpr', 'CXXOperatorCallExpr') and nd.get('cd'):
+                callee = self.unit.functions.get(nd['cd'])
+                if callee is None or callee.id == f.id or not callee.body or not callee.cfg:
+                    continue
+                if nd['c'] == 'CXXOperatorCallExpr' and nd.get('op') == '()' and '(lambda)' in callee.tname:
+                    a0 = f.strip(nd['args'][0]) if nd.get('args') else 0
+                    a0n = f.n(a0) if a0 else {}
+                    if a0n.get('c') == 'DeclRefExpr' and a0n.get('dk') in ('local', 'static_local') and a0n.get('d') in self.closure_home:
+                        out.append((i, callee, ('closure', a0n.get('n', ''))))
+                    continue
+                k = _is_unknown_callee(f, nd, callee, self.known, self.closure_home)
+                if k:
+                    out.append((i, callee, k))
+        return out
+
+    def prepare(self, callee):
+        if callee.id not in self.copies:
+            c = self._copy(callee)
+            self.copies[callee.id] = c
+            self.done.pop(c.id, None)
+            self.inlined(c)
+        return self.copies[callee.id]
+
+    def flat(self, fn):
+        c = self._copy(fn)
+        self.done.pop(c.id, None)
+        self.inlined(c)
+        return c
+
+
+def flat(fn):
+    """fully inlined private copy of fn (cached on fn)"""
+    c = getattr(fn, '_flat', None)
+    if c is None:
+        fl = getattr(fn.unit, '_flattener', None)
+        if fl is None:
+            fl = fn.unit._flattener = Flattener(fn.unit)
+        c = fl.flat(fn)
+        fn._flat = c
+    return c
